@@ -6,6 +6,7 @@ CONSTANTS
   MaxT = 2
   Kinds = {"way", "relation"}
   UnannChoices = {0, 1}
+  LocKinds = {"n"}
   BreakAtLate = FALSE
 SPECIFICATION Spec
 INVARIANTS Exact1 Exact2 Pending1 Pending2 IndexErr1 IndexErr2 Compose GeomAt1 GeomAt2 FoldsAgree UpToSplit KFExact
